@@ -373,11 +373,19 @@ func (w *Workspace) addMissingReachableLocked(reachable []string) bool {
 		if w.index.FileIndex(path) != nil {
 			continue
 		}
-		content, err := os.ReadFile(path)
-		if err != nil {
-			continue
+		// a file that joins the tree while it is open joins with its buffer
+		content, open := "", false
+		if w.loader != nil {
+			content, open = w.loader.OpenContent(path)
 		}
-		fileIndex, journal, _ := BuildFileIndexFromContent(path, string(content))
+		if !open {
+			data, err := os.ReadFile(path)
+			if err != nil {
+				continue
+			}
+			content = string(data)
+		}
+		fileIndex, journal, _ := BuildFileIndexFromContent(path, content)
 		w.index.SetFileIndex(path, fileIndex)
 		w.updateIncludeEdgesLocked(path, nil, fileIndex.Includes)
 		w.updateResolvedLocked(path, journal)
